@@ -160,3 +160,53 @@ Proof.
     + intros n lr lv [<-|[]] H. injection H as <- <-. exists 0, 5%N. split; [reflexivity | right; reflexivity].
     + intros rr x y [H1|[H1|[]]] [H2|[H2|[]]]; congruence.
 Qed.
+
+(* ---------------------------------------------------------------- locked on X, valid block an OLDER Y
+
+   Even the weaker clause of SyncWeak.Inv' (valid round >= lock round OR valid block = locked
+   block) is not an invariant of the code.  The machine, locked on X in round 0, learns the polka
+   for Y of round 1 while in round 0 (no unlock), prevotes X in round 1 on the propose timeout,
+   then receives Y's proposal and block: handleCompleteProposal makes Y the valid block of
+   round 1 (it never touches the lock).  Before its own prevote comes back it is carried to round
+   2 by the prevotes for X there (validators that prevoted Y in round 1 without seeing the polka
+   are free to prevote X), which form a polka for X: enterPrecommit re-locks X with LockedRound 2.
+   The node is now locked on X (round 2) and would, as proposer, re-propose its valid block Y
+   (POL round 1) — not the block of the latest polka: C03_locked_node_is_good_proposer(_weak)
+   does not transfer to the code for such a node (a wasted round, not a livelock). *)
+Definition w_prefix3 : list input :=
+  firstn 7 w_prefix ++
+  [ w_vote PREVOTE 1 w_Y 1; w_vote PREVOTE 1 w_Y 2; w_vote PREVOTE 1 w_Y 3;
+    ITimeout {| ti_height := 1; ti_round := 1; ti_step := SPropose |};
+    IProposal {| pr_height := 1; pr_round := 1; pr_polr := -1; pr_bid := (7%N, (1%N, 70%N)); pr_signer := 2; pr_sigvalid := true |};
+    IPart 1 (1%N, 70%N) 0%N (Some w_b);
+    w_vote PREVOTE 2 w_X 1; w_vote PREVOTE 2 w_X 2; w_vote PREVOTE 2 w_X 3;
+    ITimeout {| ti_height := 1; ti_round := 2; ti_step := SPropose |};
+    w_vote PREVOTE 2 w_X 0;
+    ITimeout {| ti_height := 1; ti_round := 2; ti_step := SPrevoteWait |} ].
+
+Theorem lock_on_other_than_valid_reachable :
+  exists (E : env) (ins : list input),
+    let s := fst (run E (init_state E 1 None) ins) in
+    let n := abs 10 s in
+    let pol : list Sync.polka := [(0, Some 5%N); (1, Some 7%N); (2, Some 5%N)] in
+    cs_halted s = false /\
+    (forall rr v, In (rr, Some v) pol -> exists ph, o_maj23 (prevotes (cs_votes s) rr) = Some (Some (v, ph))) /\
+    Sync.n_lock n = Some (2, 5%N) /\ Sync.n_valid n = Some (1, 7%N) /\
+    ~ SyncWeak.Inv' pol [n] /\
+    (* what it would propose (its valid block) is not the block of the latest polka *)
+    Sync.is_latest pol (2, Some 5%N) /\ Sync.proposal_of 9%N (Sync.unlock pol n) = 7%N.
+Proof.
+  exists w_env, w_prefix3. cbv zeta.
+  assert (En : abs 10 (fst (run w_env (init_state w_env 1 None) w_prefix3)) =
+               {| Sync.n_power := 10; Sync.n_lock := Some (2, 5%N); Sync.n_valid := Some (1, 7%N) |})
+    by (vm_compute; reflexivity).
+  rewrite En.
+  split; [vm_compute; reflexivity|].
+  split.
+  { intros rr v [H|[H|[H|[]]]]; injection H as <- <-; eexists; vm_compute; reflexivity. }
+  split; [reflexivity|]. split; [reflexivity|]. split; [|split].
+  - intros [_ _ C _]. destruct (C _ 2 5%N (or_introl eq_refl) eq_refl) as (vr & vv & Ev & Hle).
+    cbn in Ev. injection Ev as <- <-. destruct Hle as [Hle|Hle]; [lia | discriminate].
+  - split; [right; right; left; reflexivity|]. intros q [<-|[<-|[<-|[]]]]; cbn; lia.
+  - vm_compute. reflexivity.
+Qed.
